@@ -83,6 +83,15 @@ func failingStatements(w *world, maxM int) []failStmt {
 		failStmt{SQL: "UPDATE t1 SET c = a", Class: "update/set-from-column"},
 	)
 	if len(t.Rows) > 0 {
+		// valid statements over the whole tree: they are expected to succeed (then there is nothing to judge here);
+		// if the engine fails one of them half way, the same rule applies - an error means nothing has changed
+		half := t.Inserted / 2
+		out = append(out,
+			failStmt{SQL: "DELETE FROM t1", Class: "valid/delete-all", K: 0, M: len(t.Rows)},
+			failStmt{SQL: fmt.Sprintf("DELETE FROM t1 WHERE a > %d", half), Class: "valid/delete-upper-half", K: 0, M: len(t.Rows)},
+			failStmt{SQL: fmt.Sprintf("DELETE FROM t1 WHERE a <= %d", half), Class: "valid/delete-lower-half", K: 0, M: len(t.Rows)},
+			failStmt{SQL: "UPDATE t1 SET c = 'v'", Class: "valid/update-all", K: 0, M: len(t.Rows)},
+			failStmt{SQL: fmt.Sprintf("INSERT INTO t1 VALUES (%d, 'v')", next), Class: "valid/insert", K: 0, M: 1})
 		out = append(out,
 			failStmt{SQL: "UPDATE t1 SET a = 'x'", Class: "update/type-mismatch", K: 1, M: len(t.Rows)},
 			failStmt{SQL: "UPDATE t1 SET a = 2147483648", Class: "update/int-out-of-range", K: 1, M: len(t.Rows)},
@@ -117,6 +126,13 @@ func failingStatements(w *world, maxM int) []failStmt {
 // c14Seeds: name -> builder. t4 variants put the long row at position k.
 func c14Seed(w *world, name string) *world {
 	switch {
+	case name == "small:t1x40":
+		// reduced capacity: 40 rows make a tree of several levels with split internal nodes
+		ok := w.do(mkCreate("t1", worldSchemas["t1"]))
+		for i := 0; ok && i < 4; i++ {
+			ok = w.do(mkInsert(w.model, "t1", 10, false))
+		}
+		return okw(w, ok)
 	case strings.HasPrefix(name, "t4k"):
 		k := int(name[3] - '0')
 		cols := []mCol{{"a", "int"}, {"c", "varchar"}, {"e", "varchar"}}
@@ -156,7 +172,7 @@ func c14Seed(w *world, name string) *world {
 
 func runC14(env *lib.Env, rep *lib.Report) {
 	maxM := 3
-	seeds := []string{"t1-empty", "t1x8", "t1x8-upper-deleted", "interleaved", "t4k1", "t4k2", "t4k3", "t5-null-later"}
+	seeds := []string{"t1-empty", "t1x8", "t1x8-upper-deleted", "interleaved", "t4k1", "t4k2", "t4k3", "t5-null-later", "small:t1x40"}
 	if env.Thorough() {
 		maxM = 4
 		seeds = append(seeds, "t1x30", "t1x8+t2t3-crashed", "t1x12+t2x1")
@@ -168,7 +184,11 @@ func runC14(env *lib.Env, rep *lib.Report) {
 	explore(env, rep, 0, func(c *lib.Ctx) {
 		seed := seeds[c.Choose(len(seeds), "seed")]
 		c.Logf("seed %s", seed)
-		w := newWorld(c, worldOpt{})
+		opt := worldOpt{}
+		if strings.HasPrefix(seed, "small:") {
+			opt = worldOpt{Leaf: 3, Internal: 3}
+		}
+		w := newWorld(c, opt)
 		defer func() { w.destroy() }()
 		if sw := c14Seed(w, seed); sw == nil || c.Failed() {
 			if !c.Failed() {
